@@ -110,6 +110,11 @@ def gtf_lines(sc):
             tattr = 'gene_id "%s"; transcript_id "%s";' % (g["id"], t["id"])
             if fl.get("extras"):
                 tattr += ' gene_name "%s_n"; transcript_type "protein_coding";' % g["id"]
+            if fl.get("canonical_attr"):
+                # what an annotation written by an earlier IsoQuant run (--check_canonical) carries, right or stale
+                v = fl["canonical_attr"]
+                tattr += ' Canonical "%s"; exons "%d";' % (
+                    v if v != "mixed" else ("True", "False")[(len(lines) + len(t["exons"])) % 2], len(t["exons"]))
             if fl.get("transcript_records", True):
                 lines.append("\t".join([g["chr"], src, "transcript", str(t["exons"][0][0]), str(t["exons"][-1][1]),
                                         ".", g["strand"], ".", tattr]))
